@@ -24,6 +24,7 @@ CONSTANTS
     AsyncHandlers,    \* BOOLEAN: message handlers run on background tasks
     Monitor,          \* BOOLEAN: service task enabled
     WsAvailable,      \* BOOLEAN: the async mode offers a websocket
+    Transports,       \* subset of {"polling", "websocket"} the server allows
     ImplSentinel,     \* BOOLEAN: close() puts the None sentinel (threaded) or not (asyncio)
     ImplWsReadTimeout,\* BOOLEAN: websocket reads time out after I+T (asyncio)
     Deviations,       \* set of known-defect names whose behaviour is admitted
@@ -68,12 +69,15 @@ FreshSess == [used |-> FALSE, conn |-> FALSE, upging |-> FALSE, upged |-> FALSE,
 (*   out    Seq(output)               outputs of the current step, in order *)
 (*   exc    "none" | name             exception propagating out of a nested call *)
 (*   dev    set of deviations that fired                                   *)
+(*   cause  [Sid -> first end cause]   rcvd [Sid -> Seq(client messages     *)
+(*   accepted)]   endt [Sid -> time of close]                               *)
 (***************************************************************************)
 
 InitG == [ss |-> [s \in Sid |-> FreshSess], table |-> {},
           ev |-> [s \in Sid |-> <<>>], sent |-> [s \in Sid |-> 0],
           deliv |-> [s \in Sid |-> <<>>], hq |-> <<>>, pstart |-> [s \in Sid |-> 0],
-          out |-> <<>>, exc |-> "none", dev |-> {}, cause |-> [s \in Sid |-> "none"]]
+          out |-> <<>>, exc |-> "none", dev |-> {}, cause |-> [s \in Sid |-> "none"],
+          rcvd |-> [s \in Sid |-> <<>>], endt |-> [s \in Sid |-> None]]
 
 NoWs == [st |-> "none", rid |-> 0, dl |-> None]
 
@@ -115,7 +119,8 @@ Expired(gg, s) == gg.ss[s].lp # None /\ now - gg.ss[s].lp > PingTimeout
 Close(gg, s, abort, reason) ==
     IF gg.ss[s].closed \/ gg.ss[s].closing THEN gg
     ELSE LET g1 == Event([gg EXCEPT !.ss[s].closing = TRUE,
-                                    !.cause[s] = IF @ = "none" THEN reason ELSE @],
+                                    !.cause[s] = IF @ = "none" THEN reason ELSE @,
+                                    !.endt[s] = now],
                          s, "disc:" \o reason)
              g2 == IF abort \/ Expired(g1, s) THEN g1 ELSE Put(g1, s, "CLOSE")
              g3 == [g2 EXCEPT !.ss[s].closed = TRUE]
@@ -156,8 +161,9 @@ RunMsgHandler(gg, s, p) ==
 Receive(gg, s, p) ==
     CASE p = "PONG"    -> [gg EXCEPT !.pstart[s] = @ + 1]
       [] IsCliMsg(p)   -> IF AsyncHandlers
-                          THEN [gg EXCEPT !.hq = Append(@, [s |-> s, tok |-> p])]
-                          ELSE RunMsgHandler(gg, s, p)
+                          THEN [gg EXCEPT !.hq = Append(@, [s |-> s, tok |-> p]),
+                                          !.rcvd[s] = Append(@, p)]
+                          ELSE RunMsgHandler([gg EXCEPT !.rcvd[s] = Append(@, p)], s, p)
       [] p = "UPGRADE" -> Send(gg, s, "NOOP")
       [] p = "CLOSE"   -> Close(gg, s, TRUE, "client")
       [] OTHER         -> IF "AsyncUnknownTypeSwallowed" \in Deviations /\ p = "BAD7"
@@ -209,7 +215,13 @@ MonStart(m) == IF m.st = "off" THEN [m EXCEPT !.st = "new"] ELSE m
 
 \* GET without sid, transport=polling.  outcome: "accept" | "reject"; hsend: the connect
 \* handler sends a message to the new session.
+Refuse(status) ==
+    /\ nreq' = nreq + 1
+    /\ g' = Resp(EnvStart(g), nreq + 1, status, <<>>)
+    /\ UNCHANGED <<now, polls, psleep, wsr, wsin, wsw, wsgone, joiners, mon>>
+
 OpenPolling(outcome, hsend) ==
+    IF "polling" \notin Transports THEN Refuse(400) ELSE
     /\ FreeSids # {}
     /\ LET s == NextFree
            rid == nreq + 1
@@ -234,6 +246,7 @@ OpenPolling(outcome, hsend) ==
 \* requests are recorded with the normalised status 499 (an ASGI websocket scope cannot carry
 \* an HTTP status; the exact statuses are decided by EioHttp).
 OpenWs(outcome, hsend) ==
+    IF "websocket" \notin Transports THEN Refuse(499) ELSE
     /\ FreeSids # {}
     /\ LET s == NextFree
            rid == nreq + 1
@@ -262,6 +275,7 @@ OpenWs(outcome, hsend) ==
 
 \* GET ?sid=..&transport=polling
 PollReq(s) ==
+    IF "polling" \notin Transports THEN s \in UsedSids /\ Refuse(400) ELSE
     /\ s \in UsedSids
     /\ LET rid == nreq + 1
            g0 == EnvStart(g)
@@ -302,6 +316,7 @@ DisconnectG(gg, s) ==
 Bodies(s) == {}  \* placeholder, the configuration supplies the body alphabet
 
 PostReq(s, body) ==
+    IF "polling" \notin Transports THEN s \in UsedSids /\ Refuse(400) ELSE
     /\ s \in UsedSids
     /\ LET rid == nreq + 1
            g0 == EnvStart(g)
@@ -328,17 +343,18 @@ PostReq(s, body) ==
                         /\ g' = Resp([g1 EXCEPT !.exc = "none"], rid, 200, <<>>)
                         /\ UNCHANGED joiners
                     ELSE
-                        LET d == DisconnectG([g1 EXCEPT !.exc = "none"], s)
-                        IN IF d.blocks
-                           THEN /\ g' = d.gn
-                                /\ joiners' = Append(joiners, [s |-> s, kind |-> "req",
-                                                               id |-> rid])
-                           ELSE /\ g' = Resp(d.gn, rid, 400, <<>>)
-                                /\ UNCHANGED joiners
+                        \* protocol error: close without waiting, remove from the table, 400
+                        LET g2 == [g1 EXCEPT !.exc = "none"]
+                            g3 == IF s \in g2.table
+                                  THEN [Close(g2, s, FALSE, "server") EXCEPT !.table = @ \ {s}]
+                                  ELSE g2
+                        IN /\ g' = Resp(g3, rid, 400, <<>>)
+                           /\ UNCHANGED joiners
     /\ UNCHANGED <<now, polls, psleep, wsr, wsin, wsw, wsgone, mon>>
 
 \* GET ?sid=..&transport=websocket with Upgrade headers
 UpgradeReq(s) ==
+    IF "websocket" \notin Transports THEN s \in UsedSids /\ Refuse(499) ELSE
     /\ s \in UsedSids
     /\ wsr[s].st = "none" \/ g.ss[s].upged   \* environment: one upgrade socket at a time
     /\ LET rid == nreq + 1
@@ -503,6 +519,10 @@ ReaderProbe(s) ==
              ELSE IF Undecodable(f) /\ "HandshakeGarbageLeavesUpgrading" \in Deviations THEN
                  /\ g' = WsEnd([g EXCEPT !.dev = @ \cup {"HandshakeGarbageLeavesUpgrading"}], s)
                  /\ wsr' = [wsr EXCEPT ![s] = NoWs]
+             ELSE IF Undecodable(f) THEN
+                 \* the decoding error escapes the request (no reaping); the flag is reset
+                 /\ g' = WsEnd([g EXCEPT !.ss[s].upging = FALSE], s)
+                 /\ wsr' = [wsr EXCEPT ![s] = NoWs]
              ELSE
                  \* handshake failed: the request returns; a closed session is reaped
                  /\ g' = ReapIfClosed(WsEnd([g EXCEPT !.ss[s].upging = FALSE], s), s)
@@ -521,6 +541,10 @@ ReaderUpg(s) ==
                  /\ wsw' = [wsw EXCEPT ![s] = "new"]
              ELSE IF Undecodable(f) /\ "HandshakeGarbageLeavesUpgrading" \in Deviations THEN
                  /\ g' = WsEnd([g EXCEPT !.dev = @ \cup {"HandshakeGarbageLeavesUpgrading"}], s)
+                 /\ wsr' = [wsr EXCEPT ![s] = NoWs]
+                 /\ UNCHANGED wsw
+             ELSE IF Undecodable(f) THEN
+                 /\ g' = WsEnd([g EXCEPT !.ss[s].upging = FALSE], s)
                  /\ wsr' = [wsr EXCEPT ![s] = NoWs]
                  /\ UNCHANGED wsw
              ELSE
